@@ -464,7 +464,7 @@ def yule_walker(X, order=1, method="unbiased", df=None, inv=False):
     X = np.asarray(X, np.float64)
     if X.ndim != 1:
         raise ValueError("Expecting a vector to estimate AR parameters")
-    X -= X.mean(0)
+    X = X - X.mean(0)  # not in place: X may be the caller's array
     n = df or X.shape[0]
     if method == "unbiased":
         den = lambda k: n - k
